@@ -570,7 +570,7 @@ def generate(ctx):
         fg = FormulaGen(T, rng, ws_patterns=0.0, p_dt=0.0)
         fg.count = counts.string_count
         fgens[t] = fg
-        pg = ProgramGen(T, rng, positive=True, leaf_count=counts.number, multiplier=counts.number,
+        pg = ProgramGen(T, rng, positive=True, protocols=True, leaf_count=counts.number, multiplier=counts.number,
                         p_dt=0.0, string_counts=counts.string_count,
                         name_pool=['water', 'salt', 'sample 7', 'x'] + HOSTILE_NAMES)
         pgens[t] = pg
